@@ -124,8 +124,9 @@ impl Property for C03 {
             let f = gen_file(tape, fmt, game, tier.pick(8, 16));
             return json!({"kind": "general", "fmt": fmt.name(), "game": game, "text": f.text});
         }
+        let game = if fmt == Fmt::Ecl && tape.chance(1, 4) { *tape.pick(MODERN_ECL_GAMES) } else { game };
         let f = gen_c03_file(tape, fmt, game, 0);
-        let scripts: Vec<Value> = f.scripts.iter().map(|s| Value::Array(s.iter().map(|i| json!({"time": i.time, "opcode": i.opcode, "blob": crate::props::c16::hex_encode(&i.blob), "mask": i.mask, "arg0": i.arg0, "typed": i.typed.as_ref().map(|(sig, vals)| json!({"sig": sig, "args": vals}))})).collect())).collect();
+        let scripts: Vec<Value> = f.scripts.iter().map(|s| Value::Array(s.iter().map(|i| json!({"time": i.time, "opcode": i.opcode, "blob": crate::props::c16::hex_encode(&i.blob), "mask": i.mask, "arg0": i.arg0, "pop": i.pop, "nargs": i.nargs, "typed": i.typed.as_ref().map(|(sig, vals)| json!({"sig": sig, "args": vals}))})).collect())).collect();
         json!({"kind": "boundary", "fmt": fmt.name(), "game": game, "text": f.text, "scripts": scripts})
     }
 
@@ -206,6 +207,8 @@ impl Property for C03 {
                         }
                     } else if crate::props::c16::hex_decode(r["blob"].as_str().unwrap_or("")) != gi.args_blob { diffs.push(format!("blob of {} bytes -> {} bytes", r["blob"].as_str().unwrap_or("").len() / 2, gi.args_blob.len())); }
                     if let Some(m) = r["mask"].as_i64() { if m != gi.param_mask as i64 { diffs.push(format!("mask {} -> {}", m, gi.param_mask)); } }
+                    if let Some(p) = r["pop"].as_i64() { if p != gi.pop as i64 { diffs.push(format!("pop {} -> {}", p, gi.pop)); } }
+                    if let Some(n) = r["nargs"].as_i64() { if n != gi.arg_count as i64 { diffs.push(format!("nargs {} -> {}", n, gi.arg_count)); } }
                     if let Some(a) = r["arg0"].as_i64() { if a != gi.extra_arg.map_or(0, |x| x as i64) { diffs.push(format!("arg0 {} -> {:?}", a, gi.extra_arg)); } }
                     if !diffs.is_empty() {
                         let what = diffs[0].split(' ').next().unwrap_or("").to_string();
